@@ -177,7 +177,7 @@ fn twin_generic_method_noparent() {
 }
 
 #[kani::proof]
-#[kani::unwind(3)]
+#[kani::unwind(5)]
 fn twin_async_noparent() {
     // "no local parent" in its statically decidable form: the thread's span stack is gone, so
     // Span::enter_with_local_parent is a no-op on every path (with an empty-but-alive stack the
@@ -205,6 +205,7 @@ fn twin_async_enter_on_poll_noparent() {
 }
 
 // With a local parent: exactly one span per call, named as configured, under the caller's parent.
+// NOT REGISTERED (vlib/specs.py): out of memory at 30 GB (DESIGN.md §1); kept for a stronger engine.
 #[kani::proof]
 #[kani::unwind(3)]
 fn twin_sync_parent_default_name() {
